@@ -10,7 +10,8 @@ fn cart_fwd(op: &Op, _ctx: &dyn Context, operands: &mut dyn CoordinateSet) -> us
     for i in 0..n {
         let mut coord = operands.get_coord(i);
         coord = ellps.cartesian(&coord);
-        if !coord.0.iter().any(|c| c.is_nan()) {
+        // The time is not worked on: a tuple without one (a 3D container) is still a success
+        if !coord.0[..3].iter().any(|c| c.is_nan()) {
             successes += 1;
         }
         operands.set_coord(i, &coord);
@@ -62,7 +63,7 @@ fn cart_inv(op: &Op, _ctx: &dyn Context, operands: &mut dyn CoordinateSet) -> us
             let h = Z.abs() - b;
             coord = Coor4D::raw(lam, phi, h, t);
             operands.set_coord(i, &coord);
-            if ![lam, phi, h, t].iter().any(|c| c.is_nan()) {
+            if ![lam, phi, h].iter().any(|c| c.is_nan()) {
                 successes += 1;
             }
             continue;
@@ -91,7 +92,7 @@ fn cart_inv(op: &Op, _ctx: &dyn Context, operands: &mut dyn CoordinateSet) -> us
         coord = Coor4D::raw(lam, phi, h, t);
         operands.set_coord(i, &coord);
 
-        if ![lam, phi, h, t].iter().any(|c| c.is_nan()) {
+        if ![lam, phi, h].iter().any(|c| c.is_nan()) {
             successes += 1;
         }
     }
